@@ -102,7 +102,7 @@ func NewContextWith(data map[string]interface{}) *Context {
 		moot:    &sync.Mutex{},
 	}
 
-	for k, v := range Helpers.All() {
+	for k, v := range Helpers.Copy() {
 		if !c.isSet(k) {
 			c.Set(k, v)
 		}
@@ -150,7 +150,7 @@ func NewContextWithOuter(data map[string]interface{}, out *Context) *Context {
 		return c
 	}
 
-	for k, v := range Helpers.All() {
+	for k, v := range Helpers.Copy() {
 		if !c.isSet(k) {
 			c.Set(k, v)
 		}
